@@ -111,6 +111,9 @@ type svcPlan struct {
 	idx  int
 	name string
 	fail bool // last method carries an invalid rule
+	// next: the later service through whose /alt/{b}/s<next>/... routes this
+	// service's variable-prefix binding passes (see buildHistory)
+	next int
 	sd   protoreflect.ServiceDescriptor
 }
 
@@ -143,15 +146,16 @@ func getRule(p string) *annotations.HttpRule {
 var histSeq int64
 
 type history struct {
-	id      int64
-	pkg     string
-	plans   []*svcPlan
-	mux     *larking.Mux
-	rec     *recorder
-	served  int64
-	snaps   []snapRec
-	snapMu  sync.Mutex
-	failReg int64
+	id        int64
+	pkg       string
+	plans     []*svcPlan
+	mux       *larking.Mux
+	rec       *recorder
+	served    int64
+	snaps     []snapRec
+	snapMu    sync.Mutex
+	failReg   int64
+	pfxProbes int64
 }
 
 type snapRec struct {
@@ -165,12 +169,28 @@ func buildHistory(nGood, nFail int) (*history, error) {
 	h.pkg = fmt.Sprintf("vf.h%d", h.id)
 	f := &vschema.File{Path: fmt.Sprintf("vf/h%d.proto", h.id), Pkg: h.pkg}
 	// service 0 is the baseline registered before the start
-	for s := 0; s < 1+nGood+nFail; s++ {
+	total := 1 + nGood + nFail
+	for s := 0; s < total; s++ {
 		p := &svcPlan{idx: s, name: fmt.Sprintf("S%d", s), fail: s > nGood}
+		if s > 0 {
+			p.next = s%(total-1) + 1
+		}
 		svc := vschema.Service{Name: p.name}
 		for m := 0; m < methodsPerSvc; m++ {
 			rule := getRule(fmt.Sprintf("/h%d/s%d/m%d/{a}", h.id, s, m))
 			rule.AdditionalBindings = []*annotations.HttpRule{getRule(fmt.Sprintf("/h%d/alt/{b}/s%d/m%d", h.id, s, m))}
+			// prefix bindings: every later service also binds a verb on a
+			// path that another service's routes only pass through, i.e. on
+			// a trie node that may already exist in the published snapshot
+			// without binding anything: a literal prefix of a baseline route
+			// (Me1) and a prefix through a variable of a route of another
+			// later service, registered before or after this one (Me2)
+			if s > 0 && m == 1 {
+				rule.AdditionalBindings = append(rule.AdditionalBindings, getRule(fmt.Sprintf("/h%d/s0/m%d", h.id, s)))
+			}
+			if s > 0 && m == 2 {
+				rule.AdditionalBindings = append(rule.AdditionalBindings, getRule(fmt.Sprintf("/h%d/alt/{b}/s%d", h.id, p.next)))
+			}
 			if p.fail && m == methodsPerSvc-1 {
 				rule = getRule(fmt.Sprintf("/h%d/s%d/m%d/{no_such_field}", h.id, s, m))
 			}
@@ -221,6 +241,10 @@ func (h *history) request(svc, meth int, proto int) (served bool, code int, torn
 		resp = wire.Serve(h.mux, wire.BodyRequest("GET", fmt.Sprintf("/h%d/s%d/m%d/x", h.id, svc, meth), "", nil, nil))
 	case 1:
 		resp = wire.Serve(h.mux, wire.BodyRequest("GET", fmt.Sprintf("/h%d/alt/y/s%d/m%d", h.id, svc, meth), "", nil, nil))
+	case 3: // prefix binding of Me1: a literal prefix of a baseline route
+		resp = wire.Serve(h.mux, wire.BodyRequest("GET", fmt.Sprintf("/h%d/s0/m%d", h.id, svc), "", nil, nil))
+	case 4: // prefix binding of Me2: prefix (through a variable) of another later service's routes
+		resp = wire.Serve(h.mux, wire.BodyRequest("GET", fmt.Sprintf("/h%d/alt/y/s%d", h.id, h.plans[svc].next), "", nil, nil))
 	default:
 		full := fmt.Sprintf("/%s.S%d/Me%d", h.pkg, svc, meth)
 		resp = wire.Serve(h.mux, wire.GRPCRequest(full, nil, bytes.NewReader(wire.Frame(nil, false))))
@@ -278,6 +302,11 @@ func runHistory(r *mon.Run, rng *rand.Rand, readers, writers int, single bool) {
 				}
 				flip++
 				pr := lr.Intn(3)
+				if svc > 0 && lr.Intn(4) == 0 {
+					pr = 3 + lr.Intn(2)
+					meth = pr - 2
+				}
+				p := h.plans[svc]
 				call := h.rec.now()
 				served, code, torn, pi, wedged := h.request(svc, meth, pr)
 				ret := h.rec.now()
@@ -289,8 +318,20 @@ func runHistory(r *mon.Run, rng *rand.Rand, readers, writers int, single bool) {
 					viol(pi.Key(), "request panicked during concurrent registration: "+pi.Value)
 					return
 				}
-				p := h.plans[svc]
+				if pr >= 3 {
+					atomic.AddInt64(&h.pfxProbes, 1)
+					kind := []string{"literal-prefix-of-baseline-route", "variable-prefix-of-later-service-route"}[pr-3]
+					out := "unrouted"
+					if served {
+						out = "served"
+					}
+					r.Distinct(fmt.Sprintf("prefix-binding/%s/fail=%v/%s", kind, p.fail, out))
+				}
 				switch {
+				case pr >= 3 && p.fail && code != http.StatusNotFound:
+					viol("failed-registration-route-visible:prefix-of-existing-route", fmt.Sprintf("GET on a path where only service %d binds a verb (other services' routes pass through it) answered %d, but that service's registration is refused", svc, code))
+				case pr >= 3 && torn:
+					viol("route-without-handler:prefix-of-existing-route", fmt.Sprintf("501 for the verb service %d binds on a prefix of another service's route: the route is visible without its handler (registration work in progress observable)", svc))
 				case svc == 0 && !served:
 					viol("baseline-request-failed-during-registration", fmt.Sprintf("request for an already registered method answered %d while registrations were running", code))
 				case p.fail && served:
@@ -379,6 +420,14 @@ func runHistory(r *mon.Run, rng *rand.Rand, readers, writers int, single bool) {
 				viol("final-state-wrong", fmt.Sprintf("after quiescence service %d (fail=%v) method %d answered %d", p.idx, p.fail, m, code))
 			}
 		}
+		if p.idx > 0 {
+			for pr := 3; pr <= 4; pr++ {
+				served, code, _, _, _ := h.request(p.idx, pr-2, pr)
+				if served == p.fail || (p.fail && code != http.StatusNotFound) {
+					viol("final-state-wrong:prefix-of-existing-route", fmt.Sprintf("after quiescence the verb service %d (fail=%v) binds on a prefix of another service's route answered %d", p.idx, p.fail, code))
+				}
+			}
+		}
 	}
 
 	// monitor 3: linearizability of visibility
@@ -405,6 +454,7 @@ func runHistory(r *mon.Run, rng *rand.Rand, readers, writers int, single bool) {
 			}
 		}
 	}
+	r.Count("probes_of_verbs_bound_on_prefixes_of_other_services_routes", int(atomic.LoadInt64(&h.pfxProbes)))
 	r.Count("history_ops", len(ops))
 	r.Count("requests_overlapping_a_registration_window", overlap)
 	res, info := porcupine.CheckOperationsVerbose(visModel, pops, 120*time.Second)
@@ -457,7 +507,7 @@ func describeIllegal(ops []histOp) string {
 
 // RunC12 is the registration-atomicity check (built with -race).
 func RunC12(r *mon.Run) {
-	r.Rule = "seeded stress histories: 2-4 writers registering fresh 40-method services (some whose last method is invalid, so the whole registration must fail) while 8-16 readers request the first/last/random method of every planned service over two HTTP bindings and in-process gRPC. Monitors: (1) Go race detector (reports with a larking frame), (2) every snapshot captured after an operation is re-fingerprinted at the end; failed registrations keep pointer and fingerprint (single-writer histories), (3) porcupine linearizability of (reg, regfail, req) per service against a registered/unregistered model, plus direct assertions (baseline always served, failed service never served, no route without handler). distinct = (readers, writers, #good, #failing services, overlap class); requests overlapping a registration window are counted"
+	r.Rule = "seeded stress histories: 2-4 writers registering fresh 40-method services (some whose last method is invalid, so the whole registration must fail) while 8-16 readers request the first/last/random method of every planned service over two HTTP bindings and in-process gRPC. Monitors: (1) Go race detector (reports with a larking frame), (2) every snapshot captured after an operation is re-fingerprinted at the end; failed registrations keep pointer and fingerprint (single-writer histories), (3) porcupine linearizability of (reg, regfail, req) per service against a registered/unregistered model, plus direct assertions (baseline always served, failed service never served, no route without handler). distinct = (readers, writers, #good, #failing services, overlap class); requests overlapping a registration window are counted. Prefix-binding dimension: every later service (accepted or refused) also binds a verb on a path that another service's routes only pass through (literal prefix of a baseline route; prefix through a variable of another later service's route), probed by the readers under the same assertions (keys ...:prefix-of-existing-route; distinct prefix-binding/<kind>/fail/<outcome>); the conn lane's refused back-ends do the same below the local baseline and below proxied routes. Cancelled-waiter dimension: 1-2 RegisterConn/DropConn calls whose context is cancelled or expires while they wait behind a RegisterConn held open at a reflection round trip; afterwards state must match the calls' return values and a later RegisterService/RegisterConn/DropConn (PRNG order) must return (10 s watchdog; violation only with a goroutine dump showing the caller parked inside larking, else inconclusive); distinct cancelled-waiter/<waiter kinds>/<cancel|deadline>/<held request>"
 	r.Floor = 3
 	rng := r.Rand("c12")
 	n := r.Pick(24, 700)
